@@ -32,10 +32,12 @@ META = dict(
     category='proof',
     text='Machine-checked theorems state, for every graph of each type and every name without line breaks, that the text the model '
          'writes in kthlist, dimacs and matrix format is read back to the same vertex count, left/right split and edge set, that '
-         'every accepted text describes the returned graph, and that a dag is accepted exactly when all edges increase; the faithful '
-         'model reproduces four defects (_refuted witnesses). The model is tied to the code by comparing written texts character by '
+         'every accepted text describes the returned graph, that every reader answers a graph or ValueError on EVERY text, and that a '
+         'dag is accepted exactly when all edges increase; the model follows the current code, the four repaired defects are kept as '
+         '_as_found_refuted witnesses on the model of the code as found. The model is tied to the code by comparing written texts character by '
          'character and reader verdicts (graph or exception class) on valid, mutated and random texts. gml/dot: networkx and pydot '
-         'are an unmodelled oracle; only the label sorting + from_networkx step is modelled and the round trip is checked at run time.',
+         'are an unmodelled oracle; only cnfgen\'s own step after them (int() relabelling of dot labels, label sorting, from_networkx) is '
+         'modelled, with an identity theorem for every size, and the round trip is checked at run time.',
     note='Trusted: Coq kernel, extraction, OCaml driver, the harness, networkx/pydot. The model is hand-written; agreement with the '
          'code is checked only on the inputs the run enumerates. Texts are restricted to latin-1; int() beyond 4300 digits not modelled.',
     design_ref='5/C14',
